@@ -76,9 +76,15 @@ pub fn render_req(r: &HttpRequest) -> String {
     )
 }
 
+thread_local! {
+    // the status of the canned reply of the current case (set per case from a hash of the line):
+    // whatever the server answers, exactly ONE request is sent and it is the same request
+    static CANNED_STATUS: std::cell::Cell<u16> = const { std::cell::Cell::new(200) };
+}
+
 fn canned() -> HttpResponse {
     http::Response::builder()
-        .status(200)
+        .status(CANNED_STATUS.with(|c| c.get()))
         .header("content-type", "application/json")
         .body(br#"{"access_token":"t","token_type":"bearer","active":true,"device_code":"d","user_code":"u","verification_uri":"https://v/","expires_in":1}"#.to_vec())
         .unwrap()
@@ -101,6 +107,10 @@ pub fn run(ws: &[&str]) -> String {
         _ => return BAD.into(),
     };
     let (a1, a2, a3) = (ws[10], ws[11], ws[12]);
+    {
+        let h = ws.iter().flat_map(|w| w.bytes()).fold(0xcbf29ce484222325u64, |h, b| (h ^ b as u64).wrapping_mul(0x100000001b3)) >> 33;
+        CANNED_STATUS.with(|c| c.set([200u16, 200, 401, 400, 403, 500, 503, 302, 429, 201][(h % 10) as usize]));
+    }
     // in half of the cases OTHER clients are used on this thread first: one whose request cannot
     // even be prepared, and clients whose credentials coincide with the real ones under some
     // lossy reading (other split of "id:secret", other letter case, trimmed / padded, form-decoded,
